@@ -1,7 +1,7 @@
 \* as built: all graphs over 3 objects (emission)
 CONSTANTS
-  N = 3
-  Categories = {"font", "xobject", "colorspace"}
+  N = 2
+  Categories = {"gs", "font", "xobject", "colorspace"}
   Dev <- AsBuilt
 INIT Init
 NEXT Next
